@@ -446,6 +446,7 @@ func compileStruct(typ *runtime.Type, structName, fieldName string, structTypeTo
 			allFields = append(allFields, fieldSet)
 		}
 	}
+	foldFieldMap := map[string]*structFieldSet{}
 	for _, set := range filterDuplicatedFields(allFields) {
 		fieldMap[set.key] = set
 		lower := strings.ToLower(set.key)
@@ -453,7 +454,12 @@ func compileStruct(typ *runtime.Type, structName, fieldName string, structTypeTo
 			// first win
 			fieldMap[lower] = set
 		}
+		if _, exists := foldFieldMap[lower]; !exists {
+			// a key that is no field's exact name selects the first field that matches case-insensitively
+			foldFieldMap[lower] = set
+		}
 	}
+	structDec.foldFieldMap = foldFieldMap
 	delete(structTypeToDecoder, typeptr)
 	structDec.tryOptimize()
 	return structDec, nil
